@@ -426,6 +426,16 @@ func CheckAllocs(a *memory.Allocator, want int) *Fail {
 	return nil
 }
 
+// CheckOwn checks this tracker's live slots only (several trackers share the allocator).
+func (t *Tracker) CheckOwn() *Fail {
+	for _, s := range t.Live {
+		if f := t.CheckSlot(s); f != nil {
+			return f
+		}
+	}
+	return t.CheckDisjoint()
+}
+
 // CheckAll is the full per-step oracle for a tracker that owns every allocation
 // of its allocator: every live slot intact, pairwise disjoint, Allocs == live.
 func (t *Tracker) CheckAll() *Fail {
@@ -664,16 +674,15 @@ const (
 	OrdAsc         = iota // page by page, ascending addresses
 	OrdDesc               // reverse of OrdAsc
 	OrdInterleaved        // round robin over the pages (slot 0 of every page, slot 1 of every page …)
-	OrdDistLast           // ascending, but the distinguished pages (whose pattern varies) are fragmented last (caller reorders)
 )
 
-var OrdNames = []string{"ascending", "descending", "interleaved", "distinguished-last"}
+var OrdNames = []string{"ascending", "descending", "interleaved"}
 
 // OrderFrees flattens per-page doomed lists in the given order.
 func OrderFrees(perPage [][]*Slot, ord int) []*Slot {
 	var out []*Slot
 	switch ord {
-	case OrdAsc, OrdDesc, OrdDistLast:
+	case OrdAsc, OrdDesc:
 		for _, p := range perPage {
 			out = append(out, p...)
 		}
